@@ -175,6 +175,10 @@ Section Generic.
     gw_day Polygonfile grw gw ampl s series zeit = Some (gw_sinus gw ampl s) /\
     gw_day Soilfile grw gw ampl s series zeit = Some grw.
   Proof. intros. repeat split. Qed.
+
+  (* the phase the sinusoid uses is the configured one *)
+  Lemma gw_phase_lemma : forall (p : Z) (tag : T), sin_arg tag (gw_phase_of_config p) = sin_arg tag p.
+  Proof. reflexivity. Qed.
 End Generic.
 
 (* ------------------------------------------------------------------ *)
